@@ -13,6 +13,7 @@ import (
 	"encoding/json"
 	"fmt"
 	"os"
+	"os/exec"
 	"sort"
 	"strings"
 	"sync"
@@ -352,7 +353,7 @@ func main() {
 	r := mc.Start("C28")
 	r.Rule("stateless exploration of thread interleavings of real API calls under a cooperative scheduler: decisions at lock operations and at instrumented accesses to package-level variables, iterated preemption bound; distinct = distinct (per-call result) outcome vectors")
 	bound := mc.Pick(r, 1, 2)
-	siteCap := mc.Pick(r, 2, 2)
+	siteCap := mc.Pick(r, 1, 2)
 	r.Bound("preemption_bound", bound)
 	r.Bound("site_occurrence_cap", siteCap)
 	r.Assume("a (thread, static site) pair is a preemption candidate only the first site_occurrence_cap times it is reached; forced switches (block, end) are always decisions")
@@ -560,7 +561,146 @@ func main() {
 		}
 	}
 	r.Extra("per_scenario", perScenario)
+	if os.Getenv("C28_ONLY") == "" || os.Getenv("C28_ONLY") == "race" {
+		racePass(r, scs)
+	}
 	r.Finish()
+}
+
+// racePass is the separate free-running pass: the same call bodies as real goroutines in a
+// binary built with -race from the current tree (not instrumented). Any data race whose stack
+// passes through wa-lang.org/wa, any result differing from the call run alone, any panic or
+// process crash is a violation.
+func racePass(r *mc.Run, scs []scenario) {
+	tmp, err := os.MkdirTemp("", "c28race-")
+	if err != nil {
+		r.HarnessError("race pass: %v", err)
+		return
+	}
+	defer os.RemoveAll(tmp)
+	env := append(os.Environ(), "GOFLAGS=-mod=mod", "GOPROXY=off", "GOSUMDB=off", "GOTOOLCHAIN=local")
+	ov := tmp + "/overlay.json"
+	mk := exec.Command("python3", mc.VerifDir()+"/tools/mkoverlay.py", ov)
+	mk.Env = env
+	if out, err := mk.CombinedOutput(); err != nil {
+		r.HarnessError("race pass: mkoverlay: %v %s", err, out)
+		return
+	}
+	bin := tmp + "/c28race"
+	b := exec.Command("go", "build", "-race", "-overlay", ov, "-tags", "verif", "-o", bin, "./internal/zzverif/checks/c28race")
+	b.Dir = mc.RepoDir()
+	b.Env = env
+	if out, err := b.CombinedOutput(); err != nil {
+		r.HarnessError("race pass: go build -race failed: %v\n%s", err, tail(string(out)))
+		return
+	}
+	run := func(args ...string) (string, string, error) {
+		c := exec.Command(bin, args...)
+		c.Env = append(os.Environ(), "GORACE=halt_on_error=0 exitcode=0")
+		var so, se strings.Builder
+		c.Stdout, c.Stderr = &so, &se
+		done := make(chan error, 1)
+		if err := c.Start(); err != nil {
+			return "", "", err
+		}
+		go func() { done <- c.Wait() }()
+		select {
+		case err := <-done:
+			return so.String(), se.String(), err
+		case <-time.After(20 * time.Minute):
+			c.Process.Kill()
+			return so.String(), se.String(), fmt.Errorf("timeout")
+		}
+	}
+	so, se, err := run("1", "baseline")
+	base := ""
+	for _, l := range strings.Split(so, "\n") {
+		if strings.HasPrefix(l, "BASELINE ") {
+			base = strings.TrimPrefix(l, "BASELINE ")
+		}
+	}
+	if err != nil || base == "" {
+		r.HarnessError("race pass: baseline run failed: %v %s", err, tail(se))
+		return
+	}
+	rounds := mc.Pick(r, 3, 10)
+	var names []string
+	seen := map[string]bool{}
+	for _, sc := range scs {
+		n := strings.Join(sc.Calls, "+")
+		if !seen[n] {
+			seen[n] = true
+			names = append(names, n)
+		}
+	}
+	// a wider mix: eight goroutines at once, as the playground server would see
+	names = append(names, "buildA+buildB+runA+runB+fmt+loadTest+buildA+buildB")
+	so, se, err = run(append([]string{fmt.Sprint(rounds), base}, names...)...)
+	r.Extra("race_pass", map[string]interface{}{"rounds": rounds, "scenarios": names})
+	finished := false
+	for _, l := range strings.Split(so, "\n") {
+		switch {
+		case strings.HasPrefix(l, "DONE "):
+			finished = true
+		case strings.HasPrefix(l, "MISMATCH "):
+			f := strings.Fields(l)
+			r.Report("race-pass|result|"+f[2]+"|"+f[1], "free-running goroutines: "+l, map[string]interface{}{"line": l})
+		case strings.HasPrefix(l, "PANIC "):
+			f := strings.Fields(l)
+			r.Report("race-pass|panic|"+f[2]+"|"+f[1], "free-running goroutines: "+l, map[string]interface{}{"line": l})
+		}
+	}
+	if !finished {
+		what := firstFatal(se)
+		r.Report("race-pass|process-crash|"+what, fmt.Sprintf("free-running goroutines: the process died (%v): %s", err, what), map[string]interface{}{"stderr_tail": tail(se)})
+	}
+	nraces := 0
+	for _, blk := range strings.Split(se, "==================") {
+		if !strings.Contains(blk, "WARNING: DATA RACE") {
+			continue
+		}
+		nraces++
+		var fr []string
+		// the first wa frame of each of the two stacks
+		for _, st := range strings.Split(blk, "\n\n") {
+			if !(strings.Contains(st, " by goroutine ") || strings.Contains(st, " by main goroutine")) || strings.Contains(st, "created at") {
+				continue
+			}
+			for _, l := range strings.Split(st, "\n") {
+				l = strings.TrimSpace(l)
+				if strings.HasPrefix(l, "wa-lang.org/wa/") && !strings.Contains(l, "/zzverif/") && !strings.Contains(l, "/3rdparty/") {
+					if i := strings.IndexByte(l, '('); i > 0 {
+						l = l[:i]
+					}
+					fr = append(fr, l)
+					break
+				}
+			}
+		}
+		if len(fr) == 0 {
+			continue // a race entirely outside wa's own code
+		}
+		sort.Strings(fr)
+		r.Report("race-pass|data-race|"+strings.Join(fr, "|"), "free-running -race pass: data race between "+strings.Join(fr, " and "), map[string]interface{}{"report": clipN(blk, 3000)})
+	}
+	r.Evals.Add(int64(rounds * len(names)))
+	r.Extra("race_reports_seen", nraces)
+}
+
+func firstFatal(se string) string {
+	for _, l := range strings.Split(se, "\n") {
+		if strings.HasPrefix(l, "fatal error:") || strings.HasPrefix(l, "panic:") {
+			return l
+		}
+	}
+	return "no DONE line"
+}
+
+func clipN(s string, n int) string {
+	if len(s) > n {
+		return s[:n]
+	}
+	return s
 }
 
 func firstSites(ds []sched.Decision, n int) []string {
